@@ -315,7 +315,7 @@ Definition parse_invocation (arch : bytes) (prev : option Z) (e : entry) (st : s
       match parse_file content with
       | None => None
       | Some [] => None                                     (* no steps found *)
-      | Some (first :: _ as rows) =>
+      | Some ((first :: _) as rows) =>
           match find_by_name rows name_end with
           | None => None                                    (* end step not found *)
           | Some last =>
